@@ -26,6 +26,7 @@ def correspond(ctx, scale=1):
     cases = [(a, b, 16, "exhaustive small") for a in range(0, 24) for b in range(a, 24, 1)]
     cases += [c for c in countlib.seam_cases(rng, 40 * scale) if c[1] - c[0] < 3 * 10 ** 6]
     cases += [c for c in countlib.shape_cases(rng, 70 * scale) if c[1] - c[0] < 3 * 10 ** 6]
+    cases += [c for c in countlib.layer_cases(rng, 16 * scale) if c[1] - c[0] < 100000]
     # one segment larger than the 64 KiB print batch (needs stop >~ 2.4e9 and a sieve size > 64 KiB)
     for _ in range(2 * scale):
         a = rng.between(3 * 10 ** 9, 10 ** 11)
